@@ -52,6 +52,14 @@ pub fn c15_in_closure<W: Write>(w: &mut W, lines: &str) {
     });
 }
 
+pub fn c15_fold_discards<W: Write>(w: &mut W, s: &str) -> std::io::Result<()> {
+    s.split('\n').fold(Ok(()), |_, l| writeln!(w, "{l}"))?;
+    Ok(())
+}
+pub fn c15_try_for_each_ok<W: Write>(w: &mut W, s: &str) -> std::io::Result<()> {
+    s.split('\n').try_for_each(|l| writeln!(w, "{l}"))
+}
+
 // ---- C13: panic family ----------------------------------------------------------------------
 pub fn c13_unwrap(o: Option<u32>) -> u32 {
     o.unwrap()
